@@ -18,6 +18,7 @@ import traceback
 import numpy as np
 
 from sim import clock as simclock
+from sim import forklock
 from sim import pool as simpool
 from sim.core import (Chooser, EventLog, HarnessError, Violation, arr_digest,
                       canon, rel_err, seed_tempfile, sha, stream)
@@ -153,6 +154,11 @@ def generate(seed, tier="quick"):
         ops[0], ops[-1] = ops[-1], ops[0]
     parent = {"threads": gen.choice([1, 1, 4]), "presolve": gen.choice(["none", "same", "other"]),
               "numba_state": gen.choice(["serial_first", "parallel_first"])}
+    for o in ops:
+        # schedule choice a fake clock alone cannot make: the pool forks while
+        # the parent's plan-cache thread is inside its cull (needs a live thread)
+        if o["op"] == "parallel" and gen.random() < 0.15:
+            o["hold_cull"] = True
     if tier == "thorough" and gen.random() < 0.004:
         parent["numba_state"] = "cold"
     mode = sch.choice(["pct", "pct", "pct", "uniform", "uniform", "uniform", "uniform", "bursty", "bursty", "bursty"])
@@ -171,7 +177,8 @@ def lane_init(ctx):
 
     logging.disable(logging.CRITICAL)
     simpool.install()  # before bldfm is imported
-    simclock.install()
+    _ref["clock"] = simclock.install()
+    forklock.install()  # instrumented plan-cache locks (fork while the cull lock is held)
     import bldfm  # noqa: F401
     import bldfm.interface as bi
 
@@ -426,10 +433,19 @@ class Run:
             if tw is not None or ns is not None:
                 where += f"(sub-config towers={tw} steps={ns})"
                 self.probe("sub_config_op")
+            held_cull = False
+            if op.get("hold_cull") and op["op"] == "parallel":
+                held_cull = forklock.hold_next_cull(_ref["clock"])
+                self.probe("fork_while_cull_lock_held" if held_cull else "hold_cull_no_thread")
+                self.log.add("hold-cull", k, held_cull)
             try:
                 if op["op"] == "parallel":
                     where += f"[{op['strategy']},w={op['max_workers']}]"
-                    out = bi.run_bldfm_parallel(ocfg, max_workers=op["max_workers"], parallel_over=op["strategy"])
+                    try:
+                        out = bi.run_bldfm_parallel(ocfg, max_workers=op["max_workers"], parallel_over=op["strategy"])
+                    finally:
+                        if held_cull:
+                            forklock.release_cull(_ref["clock"])
                 elif op["op"] == "multitower":
                     out = bi.run_bldfm_multitower(ocfg, surface_flux=flux if op["flux"] else None)
                 else:
@@ -440,6 +456,8 @@ class Run:
             except HarnessError:
                 raise
             except Exception as e:
+                if type(e).__name__ == "ForkedLockHeld":
+                    raise Violation("liveness", "inherited-lock", f"{where}: a worker would block forever: {str(e)[:300]}", {"op": k, "exc": "ForkedLockHeld"})
                 cause = e.__cause__
                 tail = ""
                 try:
@@ -573,6 +591,11 @@ def simplify(rec):
         c["world"]["n_steps"] = n - 1
         yield c
     for k, o in enumerate(rec["ops"]):
+        if o.get("hold_cull"):
+            c = copy.deepcopy(rec)
+            c["ops"][k].pop("hold_cull")
+            yield c
+    for k, o in enumerate(rec["ops"]):
         if "tw" in o or "ns" in o:
             c = copy.deepcopy(rec)
             c["ops"][k].pop("tw", None)
@@ -622,6 +645,12 @@ def plan(tier, master_seed, runs=None):
         rec["parent"] = {"threads": 4, "presolve": ["same", "other", "same"][k % 3], "numba_state": "parallel_only"}
         rec["ops"] = [{"op": "parallel", "strategy": ["towers", "time", "both"][k % 3], "max_workers": [2, 1, 3][k % 3]}] + rec["ops"][:1]
         directed.append({"kind": "run", "record": rec, "timeout": 600})
+    for k in range(0 if (runs is not None and runs < 100) else (3 if tier == "quick" else 24)):
+        # directed: the pool forks while the parent's plan-cache thread holds the cull lock
+        rec = generate(run_seed(master_seed, PROP, f"holdcull{k}"), tier)
+        rec["parent"] = {"threads": 1, "presolve": "other", "numba_state": "serial_first"}
+        rec["ops"] = [{"op": "parallel", "strategy": ["both", "towers", "time"][k % 3], "max_workers": [2, 3, 1][k % 3], "hold_cull": True}]
+        directed.append({"kind": "run", "record": rec})
     jobs = directed + jobs
     return {"jobs": jobs, "determinism_slice": 6, "shrink_budget_s": 240}
 
